@@ -276,3 +276,59 @@ class _:
                 raise Fail("score:self-match", f"{case}: score {score}")
             if not close(den(An), den(A), 1e-8):
                 raise Fail("score:array-changed", f"{case}")
+
+
+@check("c08.score_degenerate", ["C08"], ["pyttb.ktensor.ktensor.score"])
+class _:
+    """score() against references that make whole rounds of the greedy matching tie at congruence zero (a zero-weight
+    component, a component with disjoint support in one mode): the returned re-ordered tensor must still denote the same
+    array and its permutation must be a permutation."""
+
+    def cases(self, tier, rng):
+        for shp in ([(4, 3, 3), (5, 4)] if tier == "quick" else [(4, 3, 3), (5, 4), (4, 4, 4), (6, 3, 2)]):
+            for R in (3, 4):
+                for kind in ("zero-weight-middle", "zero-weight-last", "disjoint-support", "zero-column"):
+                    for seed in range(2 if tier == "quick" else 5):
+                        yield dict(shape=list(shp), R=R, kind=kind, seed=rng.randrange(10**6))
+
+    def classify(self, case):
+        return case["kind"]
+
+    def run(self, case):
+        ttb = import_pyttb()
+        rs = np.random.RandomState(case["seed"])
+        shp, R = case["shape"], case["R"]
+        G = [rs.rand(d, R) + 0.1 for d in shp]
+        wA = np.arange(1.0, R + 1)
+        wB = np.arange(1.0, R + 1)
+        GB = [g.copy() for g in G]
+        k = case["kind"]
+        if k == "zero-weight-middle":
+            wA[1] = 0.0
+        elif k == "zero-weight-last":
+            wA[R - 1] = 0.0
+        elif k == "disjoint-support":
+            # component 1 of the reference lives on rows where no component of A is non-zero in mode 0
+            d0 = shp[0]
+            G[0][d0 - 1, :] = 0.0
+            GB[0] = G[0].copy()
+            GB[0][:, 1] = 0.0
+            GB[0][d0 - 1, 1] = 1.0
+        elif k == "zero-column":
+            GB[1][:, 0] = 0.0
+        A = ttb.ktensor([g.copy() for g in G], wA.copy())
+        B = ttb.ktensor([g.copy() for g in GB], wB.copy())
+        XA = kfull(G, wA)
+        try:
+            out = A.score(B)
+        except (AssertionError, ValueError, ZeroDivisionError, FloatingPointError):
+            return
+        score, An, flag, perm = out
+        perm = [int(x) for x in np.asarray(perm).reshape(-1)]
+        if sorted(perm) != list(range(R)):
+            raise Fail(f"score:permutation-is-not-a-permutation:{k}", f"{case}: {perm}")
+        got = kfull([np.asarray(f, dtype=float) for f in An.factor_matrices], np.asarray(An.weights, dtype=float))
+        if not np.all(np.isfinite(got)):
+            return
+        if np.abs(got - XA).max() > 1e-8 * max(1.0, np.abs(XA).max()):
+            raise Fail(f"score:array-changed:{k}", f"{case}: max diff {np.abs(got - XA).max()}")
